@@ -167,14 +167,18 @@ def meme_rules(repo):
     # reset after commit
     role = "after a commit the parser state is reset (name, width, row counter)"
     cp, cf, cb = block_of(c)
-    rs = [s for s in cb if isinstance(s, ast.Assign) and unparse(s.targets[0]) == "(motif, width, i)"]
-    ok = bool(rs) and unparse(rs[0].value) == "(None, None, 0)" and cb.index(rs[0]) > cb.index(c)
+    after_c = [s for s in cb[cb.index(c) + 1:] if isinstance(s, ast.Assign)] if c in cb else []
+    rs = [s for s in after_c if unparse(s.targets[0]) == "(motif, width, i)"]
+    sep = {unparse(s.targets[0]): unparse(s.value) for s in after_c if isinstance(s.targets[0], ast.Name)}
+    ok = (bool(rs) and unparse(rs[0].value) == "(None, None, 0)") or \
+        (sep.get("motif") == "None" and sep.get("width") == "None" and sep.get("i") == "0")
     if ok:
-        out.append(holds("R-FLUSH", fi, role, unparse(rs[0]), rs[0]))
-    elif not rs:
-        out.append(violation("R-FLUSH", fi, role, "state is not reset after the commit", c))
+        out.append(holds("R-FLUSH", fi, role, unparse(rs[0]) if rs else "motif = None; width = None; i = 0", rs[0] if rs else after_c[0]))
+    elif not rs and "i" not in sep:
+        # named deviation: the row counter survives the commit, so the next motif's rows are stored at stale indices
+        out.append(violation("R-FLUSH", fi, role, "the row counter `i` is not reset after the commit", c))
     else:
-        out.append(unrecognised("R-FLUSH", fi, role, unparse(rs[0])))
+        out.append(unrecognised("R-FLUSH", fi, role, "; ".join(unparse(s) for s in after_c)[:120]))
     # committed value
     role = "the committed matrix is the parsed rows transposed to (alphabet, width) under the motif's name"
     t = unparse(c)
